@@ -26,7 +26,7 @@ SPEC = dict(
     bound=dict(
         quick="8 graphs (4 backward, 4 trunk/heads; with/without saved tensors); events: torchjd call with k in {None,1,2,m} x retain in {F,T}, "
               "autograd.backward with retain in {F,T}; all histories of length <= 3 (length 3 restricted to k in {None,1})",
-        thorough="all histories of length <= 3 over the full alphabet, m in {2,3}",
+        thorough="all histories of length <= 3 over the full alphabet and of length 4 with k in {None,1,2}; m in {2,3,4}",
     ),
     assumptions=[
         "linear aggregator (Sum) so that torch.autograd.backward is an exact twin",
@@ -41,7 +41,10 @@ MTL_GRAPHS = ("saved-saved", "nosaved-nosaved", "saved-nosaved", "nosaved-saved"
 
 
 def _events(tier, length_total, m):
-    ks = [None, 1, 2, m] if (tier == "thorough" or length_total <= 2) else [None, 1]
+    if tier == "thorough":
+        ks = [None, 1, 2, m] if length_total <= 3 else [None, 1, 2]
+    else:
+        ks = [None, 1, 2, m] if length_total <= 2 else [None, 1]
     ks = list(dict.fromkeys(ks))
     ev = [("T", k, r) for k in ks for r in (False, True)] + [("A", None, r) for r in (False, True)]
     return ev
@@ -49,11 +52,11 @@ def _events(tier, length_total, m):
 
 def gen_cases(tier, seed):
     cases = []
-    ms = (2, 3) if tier == "thorough" else (3,)
+    ms = (2, 3, 4) if tier == "thorough" else (3,)
     for ep, graphs in (("bw", BW_GRAPHS), ("mtl", MTL_GRAPHS)):
         for g in graphs:
             for m in ms:
-                for L in (1, 2, 3):
+                for L in ((1, 2, 3) if tier == "quick" else (1, 2, 3, 4)):
                     ev = _events(tier, L, m)
                     hs = list(itertools.product(range(len(ev)), repeat=L))
                     # one case = a block of histories sharing the first event
